@@ -15,7 +15,8 @@ import os
 
 from harness import common as C
 
-VALUES = ["Go_Left", "abcDEF", "MixedCase_7", "Some Text", "x1Y", "éÉ", "Q", "3.5 mJx", "# Hz", "# degree Celsius"]
+VALUES = ["Go_Left", "abcDEF", "MixedCase_7", "Some Text", "x1Y", "éÉ", "Q", "3.5 mJx", "# Hz", "# degree Celsius",
+          "https://example.org/Data", "12:30/13:00"]
 LABEL_KINDS = ["default", "offset", "gaps", "permutation", "reversed", "strings", "sorted-by-onset"]
 
 
